@@ -718,6 +718,15 @@ func (a *actor) identFor(st *Step) (string, bool) {
 		return "not-a-uuid", true
 	case mode == "unknown":
 		return "3b5f1c9e-1111-4222-8333-444455556666", true
+	case strings.HasPrefix(mode, "stale:"):
+		// the identifier most recently issued to that name - by an earlier generation, when the caller itself never
+		// registered under it - or, if the name was never registered in this instance, an identifier nobody was issued
+		a.h.ridMu.Lock()
+		defer a.h.ridMu.Unlock()
+		if id := a.h.identsGlobal[mode[6:]]; id != "" {
+			return id, true
+		}
+		return "3b5f1c9e-1111-4222-8333-444455556666", true
 	case strings.HasPrefix(mode, "of:"):
 		// identifier of another extension, as recorded by the host (any process can learn it)
 		a.h.ridMu.Lock()
